@@ -109,6 +109,7 @@ func seqProfile(prop string, g *Gen, cfg *Config, rng *SplitMix) (steps int) {
 		}
 		steps = 8 + rng.Intn(10)
 	case "C20":
+		cfg.Clock = []string{"fine", "coarse", "second", "back", "back"}[rng.Intn(5)]
 		g.Links = true
 		g.RepeatPct = 35
 		g.W["file"] = 18
@@ -151,9 +152,16 @@ func runSeqGenerated(bin, prop string, seed uint64) *RunReport {
 	if prop == "C20" || prop == "C05" && rng.Chance(1, 2) {
 		// the agent's work products exist before they are attached
 		for _, f := range goodFiles {
-			st := Step{File: &FileOp{Path: f, Kind: "file", Content: "result " + f + "\n"}}
+			st := Step{File: &FileOp{Path: f, Kind: "file", Content: "result " + f + " with enough content to be longer than any link target\n"}}
 			sc.Steps = append(sc.Steps, st)
 			r.ExecStep(st)
+		}
+		if prop == "C20" {
+			for _, l := range [][2]string{{"lnk/tofile", "../r0.txt"}, {"lnk/todir", "../out"}, {"lnk/dangling", "nowhere"}, {"lnk/outside", "/etc/hostname"}} {
+				st := Step{File: &FileOp{Path: l[0], Kind: "symlink", Target: l[1]}}
+				sc.Steps = append(sc.Steps, st)
+				r.ExecStep(st)
+			}
 		}
 	}
 	if (prop == "C15" || prop == "C08") && rng.Chance(2, 3) {
